@@ -393,6 +393,12 @@ func c19ImplicitArch(ctx *evid.Ctx, repo, scratch string, archs []string, withTa
 		out, err := exec.Command(bin).Output()
 		var r map[string]any
 		if err != nil || json.Unmarshal(bytes.TrimSpace(out), &r) != nil {
+			if ee, ok := err.(*exec.ExitError); ok && libraryPanic(string(ee.Stderr)) != "" {
+				// the probe only calls GetInfo and Assemble: a Go panic with library frames is the library crashing where an
+				// error (or a result) is due
+				ctx.Violation("C19:implicit-arch:panic:"+ga, fmt.Sprintf("in a binary built for GOARCH %s the library panics instead of returning a result or an unsupported-architecture error: %s", ga, libraryPanic(string(ee.Stderr))), map[string]any{"goarch": ga, "stderr": clip(string(ee.Stderr), 1500)})
+				return
+			}
 			ctx.Capped("probe for GOARCH " + ga + " failed to run")
 			return
 		}
@@ -501,6 +507,10 @@ func c19StubRuntime(ctx *evid.Ctx, scratch string) (bool, string) {
 	var calls struct {
 		Stubs   []string `json:"stubs"`
 		Control []string `json:"control"`
+	}
+	if lp := libraryPanic(r.Stderr + "\n" + r.Stdout); lp != "" {
+		ctx.Violation("C19:stub-runtime:panic", "on js/wasm (a non-Linux target without syscall table) the program that only calls Supported, SetNoNewPrivs and LoadFilter dies with a panic in the library: "+lp, map[string]any{"target": "js/wasm", "output": clip(r.Stderr+r.Stdout, 1500)})
+		return true, "panicked"
 	}
 	if line == "" || hostLine == "" || json.Unmarshal([]byte(hostLine), &calls) != nil || r.Exit != 0 {
 		return false, fmt.Sprintf("probe run gave no result (exit %d, %.200s)", r.Exit, r.Stderr)
@@ -688,4 +698,17 @@ func c19StubNative(ctx *evid.Ctx, scratch string) (bool, string) {
 		ctx.Violation("C19:stub-native:system-calls", fmt.Sprintf("the non-Linux stubs (Supported, SetNoNewPrivs, 48 LoadFilter calls), executed on this host, performed system calls: %v", stubs), map[string]any{"target": "non-linux file set on linux/amd64", "calls": stubs})
 	}
 	return true, fmt.Sprintf("%d files swapped; %s", swapped, line)
+}
+
+// libraryPanic returns the first line of a Go panic whose trace runs through the library's packages, "" otherwise.
+func libraryPanic(out string) string {
+	i := strings.Index(out, "panic: ")
+	if i < 0 || !strings.Contains(out[i:], "github.com/elastic/go-seccomp-bpf") {
+		return ""
+	}
+	line := out[i:]
+	if k := strings.IndexByte(line, '\n'); k > 0 {
+		line = line[:k]
+	}
+	return line
 }
